@@ -104,7 +104,7 @@ func rawStr(raw []uint64) string {
 		if i > 0 {
 			sb.WriteByte(',')
 		}
-		sb.WriteString(strconv.FormatUint(l, 10))
+		sb.WriteString(strconv.FormatUint(l, 16))
 	}
 	return sb.String()
 }
@@ -917,7 +917,7 @@ func main() {
 	}
 
 	// exhaustive histories for small b*n
-	lim2, lim3 := 4, 1
+	lim2, lim3 := 4, 0
 	if o.Thorough() {
 		lim2, lim3 = 12, 2
 	}
